@@ -17,6 +17,7 @@ def table (group : String) : Option (List (String × OpS)) :=
   | "eig" => some (ratOps opsEigRat ++ opsEigFloat)
   | "sim" => some opsSim
   | "tm" => some opsTm
+  | "rand" => some opsRand
   | _ => none
 
 def outLineS (x : Except Err (List String)) : String :=
